@@ -7,7 +7,7 @@
    Nothing else: hence exactly-once, per-peer order, no merge / split, no surfacing of a message
    cut short by a disconnect.  This module holds the guards (Can...) and effects (Do...) only;
    TraceDelivery.tla drives them from recorded executions, GenDelivery.tla enumerates schedules. *)
-EXTENDS Naturals, Sequences, FiniteSets
+EXTENDS Envelopes
 
 VARIABLES stype,    \* socket type of the socket under observation
           conn,     \* connections whose handshake completed (admitted peers)
@@ -17,26 +17,8 @@ VARIABLES stype,    \* socket type of the socket under observation
           credit    \* number of recv errors that are attributable to a fault so far
 avars == <<stype, conn, ident, pend, cut, credit>>
 
-Empty == "s"   \* descriptor of the zero-length frame (harness/src/refcodec.rs fdesc)
-
 Pend(c) == IF c \in DOMAIN pend THEN pend[c] ELSE <<>>
 SetPend(c, s) == [x \in (DOMAIN pend) \cup {c} |-> IF x = c THEN s ELSE pend[x]]
-
-\* ---- per-type view of a wire message -------------------------------------------------------
-FirstEmpty(m) == IF \E i \in 1..Len(m) : m[i] = Empty
-                   THEN CHOOSE i \in 1..Len(m) : m[i] = Empty /\ \A j \in 1..(i - 1) : m[j] # Empty
-                   ELSE 0
-\* does the wire message obey the socket type's envelope rules?
-WellFormed(t, m) ==
-  CASE t = "REP" -> Len(m) >= 2 /\ FirstEmpty(m) # 0 /\ FirstEmpty(m) < Len(m)
-    [] t = "REQ" -> Len(m) >= 2 /\ m[1] = Empty
-    [] OTHER -> Len(m) >= 1
-\* what recv hands to the application for wire message m arriving on connection c
-Xform(t, id, m) ==
-  CASE t = "ROUTER" -> <<id>> \o m
-    [] t = "REP" -> SubSeq(m, FirstEmpty(m) + 1, Len(m))
-    [] t = "REQ" -> Tail(m)
-    [] OTHER -> m
 
 AInit == stype = "PULL" /\ conn = {} /\ ident = <<>> /\ pend = <<>> /\ cut = <<>> /\ credit = 0
 
